@@ -270,6 +270,16 @@ func sameBits(a, b []float64) bool {
 	return true
 }
 
+// maxf records a maximum; non-finite ratios (zero-length reference) are counted instead, they
+// cannot be serialised.
+func maxf(r *fw.R, name string, v float64) {
+	if math.IsNaN(v) || math.IsInf(v, 0) {
+		r.Count("nonfinite:"+name, 1)
+		return
+	}
+	r.Max(name, v)
+}
+
 func viol(r *fw.R, class, detail string) {
 	r.Outcome("VIOLATION:" + class)
 	r.Violate(class, detail)
@@ -422,6 +432,9 @@ walk:
 					if c, _ := matchPiece(ap, pieces[pi+n-1], ws[0], onTol, r, false); c == "" {
 						ws = append(append([]want{}, ws[1:]...), ws[0])
 						r.Outcome("joined-piece:last")
+					} else if c, _ := matchPiece(ap, pieces[pi], want{a: 0, b: ws[0].b}, onTol, r, false); c == "" {
+						note("closed-not-joined", fmt.Sprintf("subpath %d starts and ends inside a dash but the part [0,%.9g] is returned as a piece of its own instead of joined with [%.9g,L]; %s", k, ws[0].b, ws[0].a, describe()))
+						break walk
 					}
 				} else {
 					r.Outcome("joined-piece:first")
@@ -476,7 +489,7 @@ walk:
 		gotSum += pc.length
 	}
 	if gross == nil {
-		r.Max("drawn_length_error/tolerance", math.Abs(gotSum-wantSum)/sumTol)
+		maxf(r, "drawn_length_error/tolerance", math.Abs(gotSum-wantSum)/sumTol)
 	}
 	if math.Abs(gotSum-wantSum) > sumTol {
 		if gross == nil && fine == nil {
@@ -580,12 +593,12 @@ func matchPiece(ap *oracle.ArcPath, pc piece, w want, onTol float64, r *fw.R, re
 	if record {
 		for _, e := range [][3]float64{{e0, ta, w.a}, {e1, tb, w.b}} {
 			if e[1] <= 2*relLine*math.Max(ap.L, 1) {
-				r.Max("interval_end_error_straight/(1e-9*L)", e[0]/(relLine*math.Max(ap.L, 1)))
+				maxf(r, "interval_end_error_straight/(1e-9*L)", e[0]/(relLine*math.Max(ap.L, 1)))
 			} else {
-				r.Max("interval_end_error_curved/tolerance", e[0]/e[1])
+				maxf(r, "interval_end_error_curved/tolerance", e[0]/e[1])
 				j := ap.SegAt(e[2])
 				kind := map[float64]string{oracle.CmdLine: "line-behind-curve", oracle.CmdClose: "line-behind-curve", oracle.CmdQuad: "quad", oracle.CmdCube: "cube", oracle.CmdArc: "arc"}[ap.SegKind[j]]
-				r.Max("interval_end_error/length_of_containing_segment:"+kind, e[0]/(ap.SegS[j+1]-ap.SegS[j]))
+				maxf(r, "interval_end_error/length_of_containing_segment:"+kind, e[0]/(ap.SegS[j+1]-ap.SegS[j]))
 			}
 		}
 		r.Count("pieces_matched", 1)
